@@ -518,3 +518,23 @@ Proof.
   assert (G : GInv s) by (subst s; apply (run_inv_fresh GInv c); [intros; apply GInv_apply; assumption|exact Hf|apply GInv_init; assumption]).
   destruct G as (_ & _ & _ & _ & E). exact (e_eq _ E).
 Qed.
+
+(** a decidable form of [fresh_history], for examples *)
+Definition fresh_ctxb (s : state) (st : step) : bool :=
+  match st with
+  | Tx txh (MCall _ _ _ _ _ _ _ _ _ _) => match ctx_at s (txh, iidx s) with None => true | Some _ => false end
+  | ModCreate txh _ _ _ _ _ _ _ _ _ _ => match ctx_at s (txh, iidx s) with None => true | Some _ => false end
+  | _ => true
+  end.
+Fixpoint fresh_historyb (c : config) (s : state) (steps : list step) : bool :=
+  match steps with
+  | [] => true
+  | st :: r => fresh_ctxb s st && fresh_historyb c (apply c s st) r
+  end.
+Lemma fresh_historyb_ok c : forall steps s, fresh_historyb c s steps = true -> fresh_history c s steps.
+Proof.
+  induction steps as [|st r IH]; simpl; intros s H; [exact I|]. apply andb_true_iff in H. destruct H as (H1 & H2).
+  split; [|apply IH; exact H2]. destruct st as [txh m| | | |txh svc provs cons capa timeout rep freq total st0 thr| | |]; try exact I.
+  - destruct m; try exact I. simpl in *. destruct (ctx_at s (txh, iidx s)); [discriminate|reflexivity].
+  - simpl in *. destruct (ctx_at s (txh, iidx s)); [discriminate|reflexivity].
+Qed.
